@@ -115,8 +115,8 @@ type cfg struct {
 	ckOpts    bool   // cookie handler with WithUnsecure, WithMaxAge, WithSameSite, WithDomain
 	maxStarts int
 	depth     int
-	pair      bool // state-cookie manipulation x pkce-cookie manipulation (full product) instead of one manipulation
-	rich      bool // thorough: POST form callbacks, missing code, partially different keys, empty value
+	pair      bool     // state-cookie manipulation x pkce-cookie manipulation (full product) instead of one manipulation
+	rich      bool     // thorough: POST form callbacks, missing code, partially different keys, empty value
 	scopes    []string // configured scopes (nil: the default list with openid)
 	// configured identifiers (ident_test.go): "" = the usual constant
 	redirect string // redirect URI exactly as handed to the constructor
@@ -127,7 +127,7 @@ type cfg struct {
 	revOpts  bool   // the options are handed to the constructor in reverse order
 	both     string // with pkce: "cookie+pkce" | "pkce+cookie": WithCookieHandler and WithPKCE both given (one handler), in that order
 	// related-keys parts (relkeys_test.go): the cookie handler's keys as configured, the related foreign key pairs
-	hist bool // part rphist (hist_test.go): the provider also serves userinfo, end_session, revocation, device_authorization
+	hist          bool // part rphist (hist_test.go): the provider also serves userinfo, end_session, revocation, device_authorization
 	rel           bool
 	hashK, blockK []byte
 	fks           []fk
